@@ -142,8 +142,34 @@ def observe_split(s):
     return sorted(out)
 
 
+def observe_mlan(hexes, adds):
+    """the static analysis that consults the table (ml.MLAllowlist run alone through check_safety) on every
+    pickle: before any activation, while an environment with additions is active, after deactivation"""
+    import fickling.hook as fhook
+    from fickling.analysis import Analyzer
+    from fickling.ml import MLAllowlist
+    sys.path.insert(0, os.path.dirname(os.path.dirname(os.path.abspath(__file__))))
+    from harness import anlib
+    datas = [bytes.fromhex(h) for h in hexes]
+
+    def sweep():
+        return [anlib.real_analyze(d, analyzer=Analyzer([MLAllowlist()])) for d in datas]
+
+    out = {"fresh": sweep()}
+    fhook.activate_safe_ml_environment(also_allow=list(adds))
+    try:
+        out["active"] = sweep()
+    finally:
+        fhook.deactivate_safe_ml_environment()
+    out["after"] = sweep()
+    return out
+
+
 def main():
     job = json.loads(sys.stdin.read())
+    if "mlan" in job:
+        sys.stdout.write(json.dumps({"mlan": observe_mlan(job["mlan"], job["adds"])}) + "\n")
+        return
     if "splits" in job:
         sys.stdout.write(json.dumps({"splits": [observe_split(s) for s in job["splits"]]}) + "\n")
         return
